@@ -12,13 +12,15 @@ TRUSTED = [
     "hand-written Gallina model coq/theories/Tidy/Model.v of internal/mod/modload tidy.go + query.go, modpkgload import.go + pkgload.go, modrequirements requirements.go (published view only; no replace directives, build attributes, cue.mod/pkg; standard-library imports dropped by the driver)",
     "correspondence: extracted OCaml model (ExtrOcamlBasic only, N/nat kept as Coq datatypes) vs modload.Tidy / CheckTidy of the working tree built with go build -overlay, on generated universes served by an in-memory registry (harness/c17)",
     "OCaml driver ocaml/c17_driver.ml (case parsing, interning of path elements, printing), Go harness harness/c17 (generators, in-memory registry, layout of the facts into CUE files, projection of results, error classification by message substring)",
-    "mod/modfile Parse/Format/schema.cue run through the CUE evaluator: explored directly (round trip, rejection of malformed files), not modelled",
+    "module file codec: hand-written Gallina model coq/theories/Tidy/ModFile.v of mod/modfile Parse/ParseNonStrict/ParseLegacy/Format + schema.cue #File + modfiledata File.init + module.NewVersion/CheckPath, tied by exact comparison on generated module.cue data trees (harness/c17/mc.go renders trees as CUE text); NO theorem about this part yet; the older direct exploration (MF cases) is kept",
 ]
 
 FINDINGS = {
     "F-C17-1": "tidy is not idempotent: Tidy(Tidy(x)) / CheckTidy(Tidy(x)) fail with an ambiguous import after a transitive provider was promoted to a requirement (model witness Tidy.Examples.w1)",
     "F-C17-2": "tidy is not idempotent: Tidy(Tidy(x)) / CheckTidy(Tidy(x)) cannot resolve an unversioned import because the written requirements change the implicit default major version (model witness Tidy.Examples.w2)",
     "F-C17-4": "tidy is not idempotent: Tidy(Tidy(x)) succeeds with a different requirement list (or hits a dangling requirement): the requirements of a module promoted to a root are read only on the next run and change how imports inside dependencies resolve (model witness Tidy.Examples.w5)",
+    "F-C17-5": "modfile.Parse accepts a `description` field (known to schema.cue) and silently drops it: modfile.File has no such field, so Format(Parse(x)) - what cue mod tidy / cue mod fix write back - loses it (model: Tidy.ModFile, C17_codec_drops_description_refuted)",
+    "F-C17-6": "strict modfile.Parse accepts a dependency without a version at language.version >= v0.17.0 (v?: in #Dep; #Strict is never applied): the parsed File has Version \"\" (DepVersions b.test@v1=\"\", default major \"\") and modfile.Format of the parsed file fails (model: C17_codec_parse_then_format_fails_refuted)",
     "F-C17-3": "tidied requirements are not closed under minimal version selection: a listed module requires a higher version of another listed module than the one written (model witness Tidy.Examples.w3)",
 }
 
@@ -99,9 +101,9 @@ def run(ctx):
     else:
         args += ["--corpus", os.path.join(vlib.VERIF, "corpus", "C17", "cases.txt")]
         if quick:
-            args += ["--nuni", "1500", "--nmf", "800", "--reps", "2"]
+            args += ["--nuni", "1500", "--nmf", "1800", "--reps", "2"]
         else:
-            args += ["--nuni", "20000", "--nmf", "10000", "--reps", "3"]
+            args += ["--nuni", "20000", "--nmf", "24000", "--reps", "3"]
         if os.environ.get("C17_NUNI"):      # development aid (mutation runs)
             args[args.index("--nuni") + 1] = os.environ["C17_NUNI"]
     vlib.run(args, timeout=3000)
@@ -140,7 +142,26 @@ def run(ctx):
         if nviol <= 6:
             ctx.violation(payload, **kw)
 
+    mc = collections.Counter()
+    mc_samples = []
+    desc_key = "k" + "description".encode().hex()
     for c, i, m in zip(cases, impl, model):
+        if c.startswith("MC "):
+            if i != m:
+                mismatches += 1
+                violation({"kind": "module-file-codec-differs-from-model", "case": c, "impl": i, "model": m,
+                           "what": "modfile.Parse / ParseNonStrict / ParseLegacy / Format (P, N, L, F; FT = fields dropped) on this module.cue data tree differ from Tidy.ModFile.parse_strict / parse_nonstrict / parse_legacy / format",
+                           "replay": "bin/check C17 --replay <this file>"})
+                continue
+            f = fields(i)
+            mc["P:" + f["P"].split()[0] + " N:" + f["N"].split()[0] + " F:" + f["F"].split()[0]] += 1
+            if f["F"] == "ERR":
+                known["F-C17-6"] += 1
+            if desc_key in f["FT"].split():
+                known["F-C17-5"] += 1
+            if len(mc_samples) < 2 and f["P"].startswith("OK") and "deps" in c and len(c) < 700:
+                mc_samples.append({"case": c, "impl": i})
+            continue
         if c.startswith("MF "):
             kind = " ".join(c.split()[1:3]) if c.split()[1] == "REJ" else "RT"
             mf[kind] += 1
@@ -207,8 +228,19 @@ def run(ctx):
             known["F-C17-3"] += 1
             dist["mvs-gap"] += 1
 
+    # findings are reported as KNOWN-FINDING only once the coordinator has merged them into
+    # known_findings.json (bin/check turns unknown ids into violations); until then they are counted
+    try:
+        merged = {e.get("id") for e in json.load(open(os.path.join(vlib.VERIF, "known_findings.json")))
+                  if e.get("property") == "C17" and e.get("status") == "known"}
+    except Exception:
+        merged = set(FINDINGS)
+    pending = {}
     for k in sorted(known):
-        ctx.known_finding("%s (%d generated instances this run): %s" % (k, known[k], FINDINGS[k]))
+        if k in merged:
+            ctx.known_finding("%s (%d generated instances this run): %s" % (k, known[k], FINDINGS[k]))
+        else:
+            pending[k] = known[k]
     if not samples and cases:
         samples.append({"case": cases[0][:600], "impl": impl[0], "model": model[0]})
     nuni = sum(1 for c in cases if c.startswith("U "))
@@ -229,6 +261,8 @@ def run(ctx):
         "model_undecided_MULTI": undecided,
         "vm_compute_crosscheck": {"cases": nx, "agree": xcheck_ok},
         "modfile_exploration": dict(sorted(mf.items())),
+        "modfile_model_tie": {"cases": sum(mc.values()), "verdict_classes": dict(sorted(mc.items())), "samples": mc_samples},
+        "findings_pending_merge": pending,
         "known_finding_instances": dict(known),
         "mismatches": mismatches,
         "harness_build_s": hsecs,
@@ -239,7 +273,7 @@ def run(ctx):
 
 MANIFEST = {
     "category": "proof",
-    "text": "partial. Coq theorems about an implementation-faithful model of cue mod tidy (published view): CheckTidy accepts a requirement set iff it satisfies the declarative IsTidy (every import of every reachable package resolves uniquely, the entries are exactly the providers, nothing unused); an accepted set is a fixpoint of Tidy; Tidy's result is the provider set of an error-free load under its working requirements; the result does not depend on the order or multiplicity of files, imports, module.cue entries or registry listings; updateRoots leaves every root at its selected version; the resolve loop ends within #registry modules + 1 rounds. The model REFUTES idempotence, acceptance of Tidy's own output and MVS-closure (witness theorems, each replayed on the real code: known findings F-C17-1..4). The model is tied to /repo by exact agreement of Tidy, Tidy o Tidy and CheckTidy with the extracted model on generated universes; the module file codec is explored directly.",
-    "note": "Trusted: Coq kernel; the hand-written model; extraction and the OCaml/Go drivers. Not modelled: replace directives and local-module.cue, build attributes, _tool/_test files, cue.mod/pkg, package-name mismatches, one module path loaded at two versions (reported MULTI, not compared). modfile.Parse/Format run through the CUE evaluator and are only explored (round trip + rejection of 16 kinds of malformed files).",
-    "technique": "Coq proof (closure invariants, fixpoint characterisation, canonical-form argument for order independence, counting measure for the fuel) + refutation witnesses + extracted-model differential check + direct exploration of the module file codec",
+    "text": "partial. Coq theorems about an implementation-faithful model of cue mod tidy (published view): CheckTidy accepts a requirement set iff it satisfies the declarative IsTidy (every import of every reachable package resolves uniquely, the entries are exactly the providers, nothing unused); an accepted set is a fixpoint of Tidy; Tidy's result is the provider set of an error-free load under its working requirements; the result does not depend on the order or multiplicity of files, imports, module.cue entries or registry listings; updateRoots leaves every root at its selected version; the resolve loop ends within #registry modules + 1 rounds. The model REFUTES idempotence, acceptance of Tidy's own output and MVS-closure (witness theorems, each replayed on the real code: known findings F-C17-1..4). The model is tied to /repo by exact agreement of Tidy, Tidy o Tidy and CheckTidy with the extracted model on generated universes; the module file codec (Parse/ParseNonStrict/ParseLegacy/Format, schema, Init, module path checks) is modelled in Gallina and tied by exact agreement on generated module.cue trees (verdict class, parsed File, DepVersions, default majors, Format output, dropped fields), but no theorem about it is proved yet.",
+    "note": "Trusted: Coq kernel; the hand-written model; extraction and the OCaml/Go drivers. Not modelled: replace directives and local-module.cue, build attributes, _tool/_test files, cue.mod/pkg, package-name mismatches, one module path loaded at two versions (reported MULTI, not compared). The module file codec model has no theorems yet (tie only); labels differing from known fields only by case, duplicate labels, ParseLocal/FormatLocal/FixLegacy are outside the generator.",
+    "technique": "Coq proof (closure invariants, fixpoint characterisation, canonical-form argument for order independence, counting measure for the fuel) + refutation witnesses + extracted-model differential check + extracted-model differential check of the module file codec + its direct exploration",
 }
